@@ -48,6 +48,8 @@ pub(crate) fn any_mac_pub(ri: usize) -> Mac {
         region,
         board_eirp: BoardEirp { max_power, antenna_gain },
         state: State::Joined(any_session(&[])),
+        #[cfg(feature = "certification")]
+        certification: certification::Certification::new(),
     }
 }
 
@@ -101,6 +103,8 @@ fn tx_data_step(ri: usize) {
         region: mac.region.clone(),
         board_eirp: BoardEirp { max_power: mac.board_eirp.max_power, antenna_gain: mac.board_eirp.antenna_gain },
         state: State::Unjoined,
+        #[cfg(feature = "certification")]
+        certification: certification::Certification::new(),
     };
     let mut rng = mc::AnyRng::new(3);
     let mut buf = RadioBuffer::<64>::new();
@@ -126,6 +130,8 @@ fn tx_join_step(ri: usize) {
         region: mac.region.clone(),
         board_eirp: BoardEirp { max_power: mac.board_eirp.max_power, antenna_gain: mac.board_eirp.antenna_gain },
         state: State::Unjoined,
+        #[cfg(feature = "certification")]
+        certification: certification::Certification::new(),
     };
     lorawan::default_crypto::model::reset(0);
     let mut rng = mc::AnyRng::new(4);
